@@ -27,6 +27,9 @@ pub const KTYPES: [&str; 17] = ["Kmer4", "Kmer5", "Kmer6", "Kmer8", "Kmer10", "K
 /// k-mer types below the pipeline's minimum (K >= 4): only reachable through `BaseGraph::add`
 pub const TINY_KTYPES: [&str; 2] = ["Kmer2", "Kmer3"];
 
+/// user-declared VarIntKmer types whose K fills the storage integer
+pub const FULL_WIDTH_KTYPES: [&str; 5] = ["Kmer4v", "Kmer8v", "Kmer16v", "Kmer32v", "Kmer64v"];
+
 #[derive(Clone, Debug, Serialize, Deserialize, PartialEq)]
 pub enum Op {
     Next,
@@ -64,6 +67,10 @@ pub struct ConsumerCase {
     /// read reverse-complemented: same sizes, different content), iterate one of its nodes, drop it
     #[serde(default)]
     pub prior_graph: bool,
+    /// after the history, the first iterator is consumed BY VALUE through one of std's
+    /// internal-iteration methods: 1 count, 2 last, 3 for_each, 4 fold, 5 max, 6 collect (0 = not)
+    #[serde(default)]
+    pub finish_with: u8,
 }
 
 #[derive(Clone, Debug, Serialize, Deserialize)]
@@ -261,6 +268,51 @@ fn run_consumer<K: Kmer + Send + Sync + serde::Serialize + serde::de::Deserializ
             sl.pos += skip + 1;
         }
     }
+    if c.finish_with != 0 {
+        let sl = slots.remove(0);
+        let rest: Vec<K> = sl.model[sl.pos.min(sl.model.len())..].to_vec();
+        let it = sl.it;
+        let kind = c.finish_with;
+        rec.choice("finish_with", kind as u64, false);
+        rec.count("op_consumed_by_value");
+        let got = guarded(move || -> Vec<K> {
+            match kind {
+                1 => {
+                    let n = it.count();
+                    vec![K::empty(); n]
+                }
+                2 => it.last().into_iter().collect(),
+                3 => {
+                    let mut v = Vec::new();
+                    it.for_each(|k| v.push(k));
+                    v
+                }
+                4 => it.fold(Vec::new(), |mut v, k| {
+                    v.push(k);
+                    v
+                }),
+                5 => it.max().into_iter().collect(),
+                _ => it.collect(),
+            }
+        });
+        let want: Vec<K> = match kind {
+            1 => vec![K::empty(); rest.len()],
+            2 => rest.last().cloned().into_iter().collect(),
+            5 => rest.iter().max().cloned().into_iter().collect(),
+            _ => rest.clone(),
+        };
+        match got {
+            Ok(g) if g == want => {}
+            Ok(g) => {
+                return Err(Violation::new(
+                    "wrong-kmer",
+                    "NodeKmerIter consumed by value",
+                    format!("after the history, consuming the rest through method #{} gave {} items, the node has {} k-mers left (contents differ or count differs)", kind, g.len(), rest.len()),
+                ))
+            }
+            Err((loc, msg)) => return Err(Violation::new("panic", "NodeKmerIter consumed by value", format!("method #{} panicked at {}: {}", kind, loc, msg))),
+        }
+    }
     rec.nontrivial = c.ops.iter().any(|o| !matches!(o, Op::Next)) && max_n >= 2;
     Ok(())
 }
@@ -324,6 +376,17 @@ impl Harness for Consumer {
         // long nodes (hundreds of k-mers, many storage blocks) now and then; more often in the thorough tier
         let long = rng.chance(1, if tier == Tier::Thorough { 40 } else { 400 });
         let mut graph = if long { gen_graph_spec(rng, &KTYPES, 4, 1500) } else { gen_graph_spec(rng, &KTYPES, 5, 90) };
+        if rng.chance(1, 15) {
+            // same reads, a user-declared k-mer type whose K fills its storage integer
+            graph.ktype = rng.pick(&FULL_WIDTH_KTYPES).to_string();
+            let k = simcore::spec::k_of(&graph.ktype);
+            for r in graph.reads.iter_mut() {
+                while !r.is_empty() && r.len() < k + 3 {
+                    let b = r[r.len() / 2];
+                    r.push((b + r.len() as u8) % 4);
+                }
+            }
+        }
         if rng.chance(1, 12) {
             // free-form node set, now and then with a k-mer type below the pipeline's minimum
             if rng.chance(1, 2) {
@@ -347,13 +410,14 @@ impl Harness for Consumer {
             which: Vec::new(),
             second: None,
             prior_graph: rng.chance(1, 4),
+            finish_with: if rng.chance(1, 3) { rng.range(1, 6) as u8 } else { 0 },
         }
         .with_second(rng)
     }
     fn run(&self, c: &ConsumerCase, rec: &mut Rec) -> Result<(), Violation> {
         with_k!(
             c.graph.ktype.as_str(),
-            [Kmer2, Kmer3, Kmer4, Kmer5, Kmer6, Kmer8, Kmer10, Kmer12, Kmer14, Kmer15, Kmer16, Kmer20, Kmer24, Kmer30, KmerK31, Kmer32, Kmer40, Kmer48, Kmer64],
+            [Kmer2, Kmer3, Kmer4, Kmer5, Kmer6, Kmer8, Kmer10, Kmer12, Kmer14, Kmer15, Kmer16, Kmer20, Kmer24, Kmer30, KmerK31, Kmer32, Kmer40, Kmer48, Kmer64, Kmer4v, Kmer8v, Kmer16v, Kmer32v, Kmer64v],
             run_consumer,
             (c, rec)
         )
@@ -363,6 +427,11 @@ impl Harness for Consumer {
         if c.prior_graph {
             let mut x = c.clone();
             x.prior_graph = false;
+            out.push(x);
+        }
+        if c.finish_with != 0 {
+            let mut x = c.clone();
+            x.finish_with = 0;
             out.push(x);
         }
         if c.second.is_some() {
